@@ -372,7 +372,7 @@ func init() {
 		Level:       "fault_enumeration",
 		Rule:        "case = one PRNG producer/consumer history (streamed writes, flushes, partial reads, ACKs, reopen) on the simulated disk with every Writer call and every ACK bracketed by op-log markers carrying the flushed/ACKed totals; for EVERY I/O boundary after queue creation and lost-write subsets of the pending writes (powerset for n<=5/7, else none/all/single-dropped/single-alone/PRNG): the crash image is opened through txfile open + NewStandaloneDelegate + pq.New and drained; oracle = delivered events == model events [acked', flushed') byte-exact for an allowed pair (flushed' = total before the writer call in progress or after it, acked' = before the ACK in progress or after it; outside windows exactly one pair), Pending == flushed'-acked', every 9th image: two appended events are delivered after the old ones; distinct = history trace hash; non-trivial = >=3 events and >10 images",
 		Assumptions: qAssumptions,
-		NumCases:    func(t string) int { return tierN(t, 64, 2000) },
+		NumCases:    func(t string) int { return tierN(t, 64, 400) },
 		CaseTimeout: func(t string) time.Duration { return 15 * time.Minute },
 		Run:         runQCrashCase,
 		Finalize: func(a *core.Aggregate) error {
